@@ -288,6 +288,18 @@ pub struct TieredEngine {
     last_hot_tier_coherence_audit: Arc<RwLock<Instant>>,
 }
 
+/// Largest `k` the cold tier accepts (`HnswBackend::knn_search*` refuse anything above it).
+const COLD_TIER_MAX_K: usize = 10_000;
+
+/// Candidates requested from the cold tier for a top-`k` search: 2x over-fetch for the merge,
+/// capped at what the cold tier accepts. Uncapped, every valid search with `k > 5_000` was
+/// refused by the cold tier itself, answered from the hot tier only, and booked as a cold-tier
+/// failure (three of them open the circuit breaker for all searches).
+#[inline]
+fn cold_tier_candidates(k: usize) -> usize {
+    k.saturating_mul(2).min(COLD_TIER_MAX_K)
+}
+
 impl TieredEngine {
     /// Build internal components shared by all constructors
     ///
@@ -1237,7 +1249,7 @@ impl TieredEngine {
         let cold_results = if cold_tier_has_docs {
             let effective_ef_search = ef_search_override.or(Some(self.config.hnsw_ef_search));
             self.cold_tier
-                .knn_search_with_ef(query, k * 2, effective_ef_search)?
+                .knn_search_with_ef(query, cold_tier_candidates(k), effective_ef_search)?
         } else {
             vec![]
         };
@@ -1459,8 +1471,11 @@ impl TieredEngine {
         let cold_results = if cold_tier_has_docs {
             let effective_ef_search = ef_search_override.unwrap_or(self.config.hnsw_ef_search);
             let results =
-                self.cold_tier
-                    .knn_search_batch(&miss_queries, k * 2, Some(effective_ef_search))?;
+                self.cold_tier.knn_search_batch(
+                    &miss_queries,
+                    cold_tier_candidates(k),
+                    Some(effective_ef_search),
+                )?;
             {
                 let mut stats = self.stats.write();
                 stats.cold_tier_searches += miss_indices.len() as u64;
@@ -2011,7 +2026,7 @@ impl TieredEngine {
                         let _worker_permit = worker_permit;
                         cold_tier.knn_search_with_ef_cancel(
                             &query_vec,
-                            k * 2,
+                            cold_tier_candidates(k),
                             effective_ef_search,
                             Some(cold_cancel_worker.as_ref()),
                         )
